@@ -293,6 +293,10 @@ type Packet struct {
 	capacity int
 	setErr   error
 
+	// ShortBufferError: a datagram longer than the reader's slice is returned cut together
+	// with io.ErrShortBuffer (otherwise cut silently)
+	ShortBufferError bool
+
 	Reads    []CallRecord
 	Writes   []CallRecord
 	Received [][]byte
@@ -317,7 +321,7 @@ func (s *Packet) ReadFrom(b []byte) (int, net.Addr, error) {
 	n, err := s.readFrom(b)
 	s.mu.Lock()
 	s.Reads = append(s.Reads, CallRecord{n, err})
-	if err == nil {
+	if err == nil || n > 0 {
 		s.Received = append(s.Received, append([]byte(nil), b[:n]...))
 	}
 	s.mu.Unlock()
@@ -342,7 +346,12 @@ func (s *Packet) readFrom(b []byte) (int, error) {
 			d := s.queue[0]
 			s.queue = s.queue[1:]
 			s.broadcastLocked()
+			short := s.ShortBufferError && len(d) > len(b)
 			s.mu.Unlock()
+			if short {
+				// like vnet.UDPConn (and UDP on some platforms): the leading bytes together with an error
+				return copy(b, d), io.ErrShortBuffer
+			}
 			return copy(b, d), nil
 		}
 		var timerC <-chan time.Time
